@@ -277,11 +277,11 @@ def single_pool():
     for s in range(O.N_SOURCES):
         n = len(O.TEXTS[s])
         for a, b in itertools.combinations_with_replacement([0, 2, 3, 5], 2):
-            singles.append(("code", s, a, b))
+            singles.append(("code", s, min(a, n), min(b, n)))  # indices are positions in the text (clamped for short / empty texts)
         singles.append(("gen", s))
         singles.append(("xml", s, "/a/b"))
     singles.append(("xml", 0, "/c"))
-    return singles
+    return list(dict.fromkeys(singles))
 
 
 def origin_checks(ctx):
